@@ -63,6 +63,25 @@ type SUT struct {
 	panics      []PanicRecord
 	lis         *bufconn.Listener
 	delayRouter http.Handler
+	streams     int
+}
+
+// WaitStreamsIdle waits until no streaming handler is running on the server
+// (a cancelled StreamingPull winds down asynchronously).
+func (s *SUT) WaitStreamsIdle(timeout time.Duration) bool {
+	deadline := time.Now().Add(timeout)
+	for {
+		s.mu.Lock()
+		n := s.streams
+		s.mu.Unlock()
+		if n == 0 {
+			return true
+		}
+		if time.Now().After(deadline) {
+			return false
+		}
+		time.Sleep(time.Millisecond)
+	}
 }
 
 func scratchRoot() string {
@@ -163,6 +182,14 @@ func (s *SUT) guardUnary(ctx context.Context, req any, info *grpc.UnaryServerInf
 }
 
 func (s *SUT) guardStream(srv any, ss grpc.ServerStream, info *grpc.StreamServerInfo, handler grpc.StreamHandler) (err error) {
+	s.mu.Lock()
+	s.streams++
+	s.mu.Unlock()
+	defer func() {
+		s.mu.Lock()
+		s.streams--
+		s.mu.Unlock()
+	}()
 	defer func() {
 		if r := recover(); r != nil {
 			s.mu.Lock()
